@@ -338,6 +338,23 @@ def code_flags(repo, unparsed):
     else:
         unparsed.append({'item': 'flags.canonFoldsHertz', 'why': 'Units.simplify_units not found'})
     flags['canonFoldsHertz'] = fold
+    # where is state.canonical_units read?  (only the printing properties `_pexpr` may)
+    readers = []
+    for fn in sorted(os.listdir(lc)):
+        if not fn.endswith('.py') or fn in ('state.py', 'config.py'):
+            continue
+        try:
+            t = ast.parse(open(os.path.join(lc, fn)).read())
+        except SyntaxError:
+            continue
+        for node in ast.walk(t):
+            if isinstance(node, (ast.FunctionDef, ast.AsyncFunctionDef)):
+                for sub in ast.walk(node):
+                    if isinstance(sub, ast.Attribute) and sub.attr == 'canonical_units' and isinstance(sub.ctx, ast.Load) \
+                            and isinstance(sub.value, ast.Name) and sub.value.id == 'state':
+                        readers.append('%s:%s' % (fn, node.name))
+    flags['canonicalOnlyPrinting'] = bool(readers) and all(r.split(':')[1] == '_pexpr' for r in readers)
+    flags['canonical_units_readers'] = sorted(set(readers))
     return flags
 
 
@@ -563,7 +580,7 @@ def generate(repo='/repo'):
     w('def codeFlags : Flags :=')
     w('  { divRestoresUnits := %s, powSetsUnits := %s, recipSetsUnits := %s, omegaNeedsQuantity := %s,' % tuple(
         lean_b(flags[k]) for k in ('divRestoresUnits', 'powSetsUnits', 'recipSetsUnits', 'omegaNeedsQuantity')))
-    w('    canonFoldsHertz := %s }' % lean_b(flags['canonFoldsHertz']))
+    w('    canonFoldsHertz := %s, canonicalOnlyPrinting := %s }' % (lean_b(flags['canonFoldsHertz']), lean_b(flags['canonicalOnlyPrinting'])))
     w('')
     w('def tables : Tables :=')
     w('  { mul := mulTable, div := divTable, classes := classTable, domains := domainTable,')
